@@ -38,7 +38,9 @@ var zzTexts = []string{
 	"vars {\n  number $x\n  number $y\n  monetary $fee\n  portion $p\n  account $acc\n}\nsend [USD $x + $y - $x] (\n  source = { max $fee - [USD 1] from $acc  @b allowing overdraft up to $fee + $fee }\n  destination = { $p to $acc remaining to { max $fee to @c remaining kept } }\n)\nset_account_meta($acc, \"k\", $y - 1 + $x)\n",
 }
 
-var zzURIs = []DocumentURI{"file:///one.num", "file:///two.num", "file:///three.num"}
+// the first two identify different documents although they differ only in the case of
+// one letter (URIs are compared as they are written); the third is unrelated
+var zzURIs = []DocumentURI{"file:///ledger/Payout.num", "file:///ledger/payout.num", "file:///other/three.num"}
 
 // zzNotifications runs f and returns the publishDiagnostics notifications it sent.
 // zzOpen opens a document through the public entry point (not through the unexported
